@@ -19,6 +19,15 @@ PARAMS = [dict(nu=3, rho=0.7), dict(nu=8, rho=0.5), dict(nu=1, rho=0.9)]
 
 def tasks(tier, seed):
     ts = []
+    # long runs on boxes with non-dyadic end points: the arm sits on a rounded shared face after every refinement
+    T = 250 if tier == "quick" else 600
+    for params in (dict(nu=5, rho=0.7), dict(nu=8, rho=0.5)):
+        for part, K in configs.PART_VARIANTS:
+            for d in (1, 2):
+                cfg = configs.cfg("Zooming", part, K, configs.ND_BOXES[d], **params)
+                for base in ("twopeak", "bigpeak"):
+                    ts.append({"kind": "algo", "label": "long/%s%s/%dd/nu%s/%s" % (part, K or "", d, params["nu"], base), "cfg": cfg, "mode": "dev", "T": T,
+                               "R": list(configs.R2), "base": base, "k": 0, "cost": 3})
     for pi, params in enumerate(PARAMS):
         for part, K in configs.PART_VARIANTS:
             for box in ("u1", "mix2"):
@@ -31,7 +40,7 @@ def tasks(tier, seed):
                            "R": list(configs.R3), "rng_k": 1 if rng else None, "cost": 4, "max_exec": 40000 if tier == "quick" else 600000})
                 if box != "u1":
                     ts += bystander_tasks(lab, cfg, configs.R3, T_long=70, bases=("bigpeak", "twopeak"), k=1 if tier == "quick" else 2)
-                for base in (("bigpeak",) if tier == "quick" else ("bigpeak", "twopeak", "alt", "zero")):
+                for base in (("bigpeak", "noff5") if tier == "quick" else ("bigpeak", "noff5", "noff6", "twopeak", "alt", "zero")):
                     ts.append({"kind": "algo", "label": "dev/%s/%s" % (lab, base), "cfg": cfg, "mode": "dev",
                                "T": 70 if tier == "quick" else 120, "R": list(configs.R3), "base": base,
                                "k": 1 if tier == "quick" else 2, "max_exec": 2500 if tier == "quick" else 40000, "cost": 6})
